@@ -42,6 +42,9 @@ type Oblig struct {
 	// not entail. Part of the obligation's key when it is not discharged, so that an entry of the
 	// assumed table covers exactly the sub-goal that was argued by hand.
 	Fails map[int]bool
+	// NoSrc: the obligation is named by its text alone (no source excerpt): its key survives edits that move or
+	// re-word the construct it is about
+	NoSrc bool
 }
 
 type interp struct {
